@@ -2,7 +2,12 @@
 
 gen:   signatures/defaults of MolGrid.__init__/from_preset/from_size/from_pruned and the table
        _DEFAULT_POWER_RTRANSFORM_PARAMS are re-extracted (ast, fail closed) into C07_gen.v and validated
-       against the imported objects; the model itself is hand-written (coq/C07/C07_model.v).
+       against the imported objects; the statements of from_pruned that normalise d_sectors / s_sectors are
+       TRANSLATED (ast, fail closed) into the Coq function norm_sectors_gen and into a Python evaluator, so the
+       from_pruned fan-out model follows the source (pinned or repaired); the rest of the model is hand-written
+       (coq/C07/C07_model.v).  fanout_pruned_spec (C07_props_pruned.v: integer and list sector arguments give the
+       documented calls) is proved about the translated statements when they allow it; otherwise
+       C07_refuted_pruned.v compiles, the obligation is marked refuted and the concrete failing calls are reported.
 prove: coq/C07/*.v (any number of atoms, any sizes; any commutative semiring incl. R).
 tie:   (1) exact correspondence at bigQ (vm_compute) of MolGrid.__init__/get_atomic_grid/__getitem__/integrate
        with the model on 1..5 atoms: real AtomGrid objects (tiny power-of-two radial grids, low degrees; aim
@@ -77,6 +82,164 @@ def _sig(fn: ast.FunctionDef):
     return pos, kwo, out
 
 
+# ---------------------------------------------------------------------- from_pruned: the d_sectors / s_sectors normalisation
+SECVARS = ("d_sectors", "s_sectors")
+
+
+def _is_none(n):
+    return isinstance(n, ast.Constant) and n.value is None
+
+
+def _tr_cond(t):
+    """isinstance(X, (int, np.integer)) | X is None | X is not None"""
+    if isinstance(t, ast.Call) and isinstance(t.func, ast.Name) and t.func.id == "isinstance" and len(t.args) == 2 and not t.keywords:
+        x, ty = t.args
+        if isinstance(x, ast.Name) and x.id in SECVARS and isinstance(ty, ast.Tuple) and len(ty.elts) == 2:
+            a, b = ty.elts
+            if isinstance(a, ast.Name) and a.id == "int" and isinstance(b, ast.Attribute) and b.attr == "integer" \
+                    and isinstance(b.value, ast.Name) and b.value.id == "np":
+                return ("isint", x.id)
+    if isinstance(t, ast.Compare) and len(t.ops) == 1 and isinstance(t.left, ast.Name) and t.left.id in SECVARS and _is_none(t.comparators[0]):
+        if isinstance(t.ops[0], ast.IsNot):
+            return ("notnone", t.left.id)
+        if isinstance(t.ops[0], ast.Is):
+            return ("isnone", t.left.id)
+    raise ValueError("from_pruned normalisation: unsupported condition " + ast.dump(t)[:200])
+
+
+def _tr_expr(e, ints):
+    """[X] * natoms | [None] * natoms | [[X] * (len(v) + 1) for v in r_sectors]   (X only where it is known to be an int)"""
+    if isinstance(e, ast.BinOp) and isinstance(e.op, ast.Mult) and isinstance(e.left, ast.List) and len(e.left.elts) == 1 \
+            and isinstance(e.right, ast.Name) and e.right.id == "natoms":
+        x = e.left.elts[0]
+        if _is_none(x):
+            return ("rep_none",)
+        if isinstance(x, ast.Name) and x.id in ints:
+            return ("rep_self", x.id)
+    if isinstance(e, ast.ListComp) and len(e.generators) == 1:
+        g = e.generators[0]
+        if isinstance(g.target, ast.Name) and isinstance(g.iter, ast.Name) and g.iter.id == "r_sectors" and not g.ifs and not g.is_async:
+            v = g.target.id
+            b = e.elt
+            if isinstance(b, ast.BinOp) and isinstance(b.op, ast.Mult) and isinstance(b.left, ast.List) and len(b.left.elts) == 1 \
+                    and isinstance(b.left.elts[0], ast.Name) and b.left.elts[0].id in ints and v not in SECVARS:
+                r = b.right
+                if isinstance(r, ast.BinOp) and isinstance(r.op, ast.Add) and isinstance(r.right, ast.Constant) and r.right.value == 1 \
+                        and type(r.right.value) is int and isinstance(r.left, ast.Call) and isinstance(r.left.func, ast.Name) \
+                        and r.left.func.id == "len" and len(r.left.args) == 1 and not r.left.keywords \
+                        and isinstance(r.left.args[0], ast.Name) and r.left.args[0].id == v:
+                    return ("per_sector", b.left.elts[0].id)
+    raise ValueError("from_pruned normalisation: unsupported expression " + ast.dump(e)[:200])
+
+
+def _tr_stmts(stmts, ints):
+    out = []
+    ints = set(ints)
+    for st in stmts:
+        if isinstance(st, ast.Assign) and len(st.targets) == 1 and isinstance(st.targets[0], ast.Name) and st.targets[0].id in SECVARS:
+            out.append(("assign", st.targets[0].id, _tr_expr(st.value, ints)))
+            ints.discard(st.targets[0].id)
+        elif isinstance(st, ast.If):
+            c = _tr_cond(st.test)
+            then_ints = ints | ({c[1]} if c[0] == "isint" else set())
+            out.append(("if", c, _tr_stmts(st.body, then_ints), _tr_stmts(st.orelse, ints)))
+            ints = set()  # after a branch nothing is known any more
+        else:
+            raise ValueError("from_pruned normalisation: unsupported statement " + ast.dump(st)[:200])
+    return out
+
+
+def extract_norm(fn: ast.FunctionDef):
+    """The statements of from_pruned between `natoms = len(atcoords)` and the first len(d_sectors) check."""
+    body = fn.body
+    start = end = None
+    for i, st in enumerate(body):
+        if isinstance(st, ast.Assign) and len(st.targets) == 1 and isinstance(st.targets[0], ast.Name) and st.targets[0].id == "natoms":
+            v = st.value
+            if not (isinstance(v, ast.Call) and isinstance(v.func, ast.Name) and v.func.id == "len" and len(v.args) == 1
+                    and isinstance(v.args[0], ast.Name) and v.args[0].id == "atcoords"):
+                raise ValueError("from_pruned: natoms is not len(atcoords)")
+            start = i
+        elif start is not None and isinstance(st, ast.If) and isinstance(st.test, ast.Compare) and isinstance(st.test.left, ast.Call) \
+                and isinstance(st.test.left.func, ast.Name) and st.test.left.func.id == "len" \
+                and isinstance(st.test.left.args[0], ast.Name) and st.test.left.args[0].id == "d_sectors" \
+                and len(st.body) == 1 and isinstance(st.body[0], ast.Raise):
+            end = i
+            break
+    if start is None or end is None:
+        raise ValueError("from_pruned: normalisation block not found")
+    for st in body[:start] + body[end:]:
+        for sub in ast.walk(st):
+            if isinstance(sub, (ast.Assign, ast.AugAssign, ast.AnnAssign)):
+                tg = sub.targets if isinstance(sub, ast.Assign) else [sub.target]
+                if any(isinstance(t, ast.Name) and t.id in SECVARS + ("natoms", "r_sectors") for t in tg) and st is not body[start]:
+                    raise ValueError("from_pruned: d_sectors / s_sectors / natoms / r_sectors are assigned outside the normalisation block")
+    return _tr_stmts(body[start + 1:end], set()), (body[start].lineno, body[end - 1].end_lineno if end > start + 1 else body[start].end_lineno)
+
+
+def norm_to_coq(ir):
+    def ex(e):
+        if e[0] == "rep_none":
+            return "ASeq (repeat SvNone natoms)"
+        if e[0] == "rep_self":
+            return f"ASeq (repeat (elem_of {e[1]}) natoms)"
+        return f"ASeq (map (fun r_sec : list RV => SvList (repeat (int_of {e[1]}) (S (length r_sec)))) r_sectors)"
+
+    def cond(c):
+        return {"isint": f"is_int {c[1]}", "isnone": f"is_none {c[1]}", "notnone": f"negb (is_none {c[1]})"}[c[0]]
+
+    def emit(stmts, ind):
+        if not stmts:
+            return "(d_sectors, s_sectors)"
+        st, rest = stmts[0], stmts[1:]
+        pad = "  " * ind
+        if st[0] == "assign":
+            return f"let {st[1]} := {ex(st[2])} in\n{pad}{emit(rest, ind)}"
+        return (f"let '(d_sectors, s_sectors) :=\n{pad}  (if {cond(st[1])}\n{pad}   then {emit(st[2], ind + 3)}\n{pad}   else {emit(st[3], ind + 3)}) in\n"
+                f"{pad}{emit(rest, ind)}")
+
+    return ("Definition norm_sectors_gen {RV : Type} (natoms : nat) (r_sectors : list (list RV)) (d_sectors s_sectors : secarg)\n"
+            "  : secarg * secarg :=\n  " + emit(ir, 1) + ".\n")
+
+
+def norm_eval(ir, natoms, r_sectors, d, s):
+    """Python evaluation of the same statements.  Values: ("int", z) | None | ("seq", [None | ("scalar", z) | ("list", [...])])."""
+    env = {"d_sectors": d, "s_sectors": s}
+
+    def cond(c):
+        v = env[c[1]]
+        if c[0] == "isint":
+            return v is not None and v[0] == "int"
+        return (v is None) == (c[0] == "isnone")
+
+    def ex(e):
+        if e[0] == "rep_none":
+            return ("seq", [None] * natoms)
+        z = env[e[1]][1]
+        if e[0] == "rep_self":
+            return ("seq", [("scalar", z)] * natoms)
+        return ("seq", [("list", [z] * (len(r) + 1)) for r in r_sectors])
+
+    def run_(stmts):
+        for st in stmts:
+            if st[0] == "assign":
+                env[st[1]] = ex(st[2])
+            else:
+                run_(st[2] if cond(st[1]) else st[3])
+
+    run_(ir)
+    return env["d_sectors"], env["s_sectors"]
+
+
+def norm_documented_py(natoms, r_sectors, d, s):
+    d1 = ("seq", [("list", [d[1]] * (len(r) + 1)) for r in r_sectors]) if d is not None and d[0] == "int" else d
+    if s is None:
+        return d1, ("seq", [None] * natoms)
+    if s[0] == "int":
+        return ("seq", [None] * natoms), ("seq", [("list", [s[1]] * (len(r) + 1)) for r in r_sectors])
+    return ("seq", [None] * natoms), s
+
+
 def gen(ctx: Ctx):
     src = (SRC / "molgrid.py").read_text()
     tree = ast.parse(src)
@@ -90,6 +253,10 @@ def gen(ctx: Ctx):
             seen.add(n.name)
             units.append({"unit": f"MolGrid.{n.name}", "file": "src/grid/molgrid.py",
                           "lines": [n.lineno, n.end_lineno], "sha": src_sha(ast.get_source_segment(src, n))})
+            if n.name == "from_pruned":
+                norm_ir, norm_lines = extract_norm(n)
+                units.append({"unit": "MolGrid.from_pruned: d_sectors/s_sectors normalisation (translated)", "file": "src/grid/molgrid.py",
+                              "lines": list(norm_lines), "sha": src_sha("\n".join(src.splitlines()[norm_lines[0] - 1:norm_lines[1]]))})
             pos, kwo, dfl = _sig(n)
             if (pos, kwo) != EXPECTED_SIGS[n.name]:
                 raise ValueError(f"unsupported signature of MolGrid.{n.name}: {pos} * {kwo}")
@@ -153,10 +320,14 @@ def gen(ctx: Ctx):
         ";\n".join("  " + r for r in rows),
         "].",
         "Definition default_params (a : Z) : option DPt := assoc a default_table.",
+        "(* the statements of MolGrid.from_pruned that normalise d_sectors / s_sectors (ast translation) *)",
+        norm_to_coq(norm_ir),
+        "Definition from_pruned_fanout {RG CT RAD RV DP : Type} (dp : Z -> option DP) :=",
+        "  @from_pruned_fanout_with RG CT RAD RV DP dp (@norm_sectors_gen RV).",
         "",
     ])
     ctx.gen("C07_gen.v", text, units)
-    return defaults, table
+    return defaults, table, norm_ir
 
 
 def dp_tok(entry):
@@ -732,6 +903,7 @@ def corr_init(ctx: Ctx, report):
 
 
 # ====================================================================== fan-out: constructor vs by-hand
+NORM_IR = {"ir": None}  # set by run() / replay(): the translated normalisation statements of from_pruned
 TOK = 64  # radii / sector boundaries are multiples of 1/64; their tokens are the integers value*64
 
 
@@ -785,19 +957,13 @@ def fanout_py(cfg, table, defaults, documented=False):
     rsec = cfg["r_sectors"]
     d = cfg["d"] if cfg["d"][0] != "omit" else ["int", defaults[("from_pruned", "d_sectors")]]
     s = cfg["s"]
-
-    def int_form(x):
-        return [("list", [x] * (len(r) + 1)) for r in rsec] if documented else [("scalar", x)] * n
-
-    d1 = int_form(d[1]) if d[0] == "int" else [("list", l) for l in d[1]]
-    if s[0] == "none":
-        d2, s2 = d1, [None] * n
-    elif s[0] == "int":
-        if not documented:
-            return None
-        d2, s2 = [None] * n, int_form(s[1])
-    else:
-        d2, s2 = [None] * n, [("list", l) for l in s[1]]
+    d0 = ("int", d[1]) if d[0] == "int" else ("seq", [("list", l) for l in d[1]])
+    s0 = None if s[0] == "none" else (("int", s[1]) if s[0] == "int" else ("seq", [("list", l) for l in s[1]]))
+    # the normalisation statements of the current source (ast translation), or the documented meaning
+    dn, sn = norm_documented_py(n, rsec, d0, s0) if documented else norm_eval(NORM_IR["ir"], n, rsec, d0, s0)
+    if dn is None or sn is None or dn[0] != "seq" or sn[0] != "seq":
+        return None  # len() of an int / None
+    d2, s2 = dn[1], sn[1]
     if len(d2) != len(rsec) or len(s2) != len(rsec):
         return None
     rad_atom = [cfg["radius"][1]] * n if cfg["radius"][0] == "scalar" else cfg["radius"][1]
@@ -1366,11 +1532,20 @@ KEY_INT_S = ("MolGrid.from_pruned(np.array([1,8]), np.array([[0,0,0],[0,0,2.]]),
 
 
 def run(ctx: Ctx):
-    defaults, table = gen(ctx)
+    defaults, table, norm_ir = gen(ctx)
+    NORM_IR["ir"] = norm_ir
     validate_gen(ctx, defaults, table)
     ctx.copy_coq("C07")
     status = ctx.coq_build()
     ctx.register_props(status)
+    # fanout_pruned_spec (C07_props_pruned.v) holds of the normalisation statements of the current source, or
+    # C07_refuted_pruned.v proves its negation for them
+    spec_ok = bool(status.get("C07_props_pruned.v"))
+    refuted_ok = bool(status.get("C07_refuted_pruned.v"))
+    if not spec_ok and refuted_ok:
+        ctx.mark_refuted("fanout_pruned_spec", "fanout_pruned_spec_refuted_lemma")
+    ctx.cov["from_pruned_integer_sectors"] = ("documented meaning (fanout_pruned_spec proved)" if spec_ok else
+                                              "refuted (C07_refuted_pruned.v compiles)" if refuted_ok else "undecided: neither file compiles")
     if not status.get("C07_model.v", False) or not status.get("C07_gen.v", False):
         raise RuntimeError("C07 model does not compile: " + (ctx.logs.get("C07_model.v", "") + ctx.logs.get("C07_gen.v", ""))[-400:])
 
@@ -1462,6 +1637,9 @@ def run(ctx: Ctx):
         "the aim-weight callable, BeckeWeights(order=3), AtomGrid(...), AtomGrid.from_preset, AtomGrid.from_pruned are Section variables (black boxes)",
         "numpy float multiplication is exact when one factor is a signed power of two / on the small dyadics used; np.einsum order is irrelevant in exact arithmetic",
         "ast extraction of the constructor signatures/defaults and of _DEFAULT_POWER_RTRANSFORM_PARAMS (fail closed; validated against the imported module)",
+        "ast translator of the d_sectors/s_sectors normalisation block of from_pruned (subset: if isinstance(x,(int,np.integer)) / x is [not] None; "
+        "x = [x]*natoms, [None]*natoms, [[x]*(len(v)+1) for v in r_sectors]; fail closed), to Coq (norm_sectors_gen) and to a Python evaluator; both "
+        "are validated by the Coq fan-out equality cases and by the constructor-vs-by-hand differential",
         "end-to-end clause: float64 quadrature, tolerance 1 % as stated in the property; inputs between 1 % and 1.5 x the re-derived probe error of a preset "
         "with a known finding are attributed to that finding",
     ]
@@ -1504,6 +1682,9 @@ def replay(rp):
             for k, p in inspect.signature(getattr(gm.MolGrid, meth)).parameters.items():
                 if p.default is not inspect.Parameter.empty:
                     defaults[(meth, k)] = p.default
+        msrc = (SRC / "molgrid.py").read_text()
+        mcls = [n for n in ast.parse(msrc).body if isinstance(n, ast.ClassDef) and n.name == "MolGrid"][0]
+        NORM_IR["ir"] = extract_norm([n for n in mcls.body if isinstance(n, ast.FunctionDef) and n.name == "from_pruned"][0])[0]
         out, known = [], []
         diff_ctor(_NullCtx(), cfg, table, defaults, lambda *a, **k: out.append(a), known)
         for a in out:
